@@ -19,7 +19,8 @@ def protected_state(ex, repo):
 
 class HistoryProp(Prop):
     """shared by the properties whose workload is the rewrite families"""
-    families = [f for f in hist.FAMILIES if f not in ("destructive", "partial", "human_overwrites_ai")]
+    families = [f for f in hist.FAMILIES if f not in ("destructive", "partial", "human_overwrites_ai", "ci_rewrite")
+                and f not in hist.ONE_SIDED_FAMILIES]
     two_sided = True
     modes = ["wrapper"]
 
@@ -48,8 +49,10 @@ class HistoryProp(Prop):
         if os.environ.get("GAISIM_GATES") is not None:
             return [x for x in os.environ["GAISIM_GATES"].split(",") if x]
         from ..runner import load_known
+        # a gate normally applies to every history workload (the listed defect would show up in any
+        # oracle); one that names a gate_scope only restricts the properties listed there
         return sorted({kf["generator_gate"] for kf in load_known().get("findings", [])
-                       if kf.get("generator_gate")})
+                       if kf.get("generator_gate") and (not kf.get("gate_scope") or self.id in kf["gate_scope"])})
 
     def draw_hazards(self, rng, tier):
         # C02's quantifier is over graphs, ranges and positions, not over file-content shapes
@@ -111,6 +114,14 @@ class C02(HistoryProp):
             return None
         if op.get("relax") == "one_sided":
             ex.gen_state["one_sided"] = True
+        if op["op"] == "ci_run" and res.get("merge_sha"):
+            # the CI rewrite: the merge commit(s) made by plain git on the server must carry the attribution
+            ex.probe("ci.checked")
+            if res.get("code"):
+                return {"monitor": "ci.run", "class": "ci_rewrite_failed",
+                        "detail": {"code": res.get("code"), "err": (res.get("err") or "")[-400:]}}
+            return check_blame(ex, ex.repos["ci"], ex.sessions, rev=res["merge_sha"],
+                               one_sided=(not self.two_sided) or ex.gen_state.get("one_sided", False))
         if op["op"] != "git":
             return None
         repo = ex.repo(op)
